@@ -176,7 +176,7 @@ theorem expand_funclike (F : Macro) (T lp : Tok) (r : List Tok) (st : St) (args 
     ∃ n s2, exec n (.expand T) st = .ok s2 ∧ s2.rb = true ∧ s2.raw = rest ∧
       s2.ctx = [⟨respace F.body T.space, some F.name⟩] ∧
       s2.macros = setHide (setArgs st.macros F.name (List.zipWith mkArg F.params args)) F.name true ∧
-      s2.depth = st.depth + 1 := by
+      s2.depth = st.depth + 1 ∧ s2.ppnl = st.ppnl ∧ s2.prag = st.prag := by
   let sp : St := { st with raw := r, newline := false, rt := lp, rb := true }
   have hag := expandfunc_collect F sp hctx hpl hne
   rw [show sp.raw = r from rfl, hcol] at hag
@@ -191,7 +191,14 @@ theorem expand_funclike (F : Macro) (T lp : Tok) (r : List Tok) (st : St) (args 
   have hrb : sp.rb = true := rfl
   simp only [hrb, not_true_eq_false, ↓reduceIte, hef]
   unfold pushMacro
-  refine ⟨_, rfl, rfl, ?_, ?_, ?_, ?_⟩
+  refine ⟨_, rfl, rfl, ?_, ?_, ?_, ?_, ?_, ?_⟩
+  rotate_left 4
+  · show (if F.body.isEmpty ∧ T.space then se.ev .emptySpace else se).ppnl = st.ppnl
+    have : (if F.body.isEmpty ∧ T.space then se.ev .emptySpace else se).ppnl = se.ppnl := by split <;> rfl
+    rw [this, h5.2.1]
+  · show (if F.body.isEmpty ∧ T.space then se.ev .emptySpace else se).prag = st.prag
+    have : (if F.body.isEmpty ∧ T.space then se.ev .emptySpace else se).prag = se.prag := by split <;> rfl
+    rw [this, h5.2.2]
   · show (if F.body.isEmpty ∧ T.space then se.ev .emptySpace else se).raw = rest
     split <;> exact h1
   · show ⟨respace F.body T.space, some F.name⟩ :: (if F.body.isEmpty ∧ T.space then se.ev .emptySpace else se).ctx = _
@@ -342,7 +349,7 @@ theorem funclike_step (F : Macro) (T lp : Tok) (r : List Tok) (st : St) (args : 
   simp only [List.reverse_nil, List.map_nil, List.nil_append, hsl] at hsplit
   have hA : splitTop (seg.length + 1) 0 (seg.map hT) [] = args.map (·.map hT) := hsplit.symm
   refine ⟨seg, rp, hr, hrp, ?_⟩
-  obtain ⟨n, s2, hex, hrb, hraw2, hctx2, hmac2, hdep2⟩ :=
+  obtain ⟨n, s2, hex, hrb, hraw2, hctx2, hmac2, hdep2, _, _⟩ :=
     expand_funclike F T lp r st args rest hctx hprag hTk hTh hget hFh hsf.func hsf.nonempty hraw hlp hcol hpl
   refine ⟨n, s2, hex, hrb, hraw2, hdep2, ?_, ?_⟩
   · -- what the new frame delivers
